@@ -267,3 +267,11 @@ def check_translation(pattern, samples, mode='match'):
         if r['answer'] not in ('sat', 'unsat') or py != smt_ans:
             bad.append((s, py, r['answer']))
     return bad
+
+
+def membership(I, pattern, s_term, mode='match'):
+    """Bool term for `re.<mode>(pattern, s)` succeeding; an uninterpreted predicate per pattern when
+    the environment abstracts regular expressions (their relations are then supplied as lemmas)."""
+    if getattr(I.env, 'abstract_regex', False):
+        return smt.App('re:%s:%s' % (mode, pattern), [s_term], smt.BOOL)
+    return smt.StrInRe(s_term, match_language(pattern, mode))
